@@ -23,6 +23,7 @@ import Proofs.OpGuardLift
 import Proofs.OpGuardSetBlock
 import Proofs.OpGuardSbtWalk
 import Proofs.OpGuardB
+import Proofs.FitDeleteNorm
 import PM.OpGuardNode
 import Props.C01
 import Props.C12
@@ -4110,6 +4111,161 @@ theorem editHistory_undo_bmp (S : Schema) (htr : compatTransB S = true) (htl : T
     tr'.undo S = .ok doc ∧ FamilyInv S tr'.doc :=
   opHistory_undo S htr htl doc ops tr' hd hn h
     (editOps_residual S htr htl hdet hfill hwrap hlab hleaf hts hcl hst ops (Tr.init doc) rfl rfl ⟨hd, hn⟩ hb
+      hall hres)
+
+/-! #### the new document of a deletion / an inline insertion is BMP again -/
+
+theorem all_noHigh_iff : ∀ (l : List Tok), l.all Tok.noHigh = true ↔ ∀ c ∈ textUnits l, isHigh c = false
+  | [] => by simp [textUnits]
+  | x :: r => by
+    have ih := all_noHigh_iff r
+    cases x <;> simp [textUnits, Tok.noHigh, ih]
+
+theorem isSubseq_mem {α} [DecidableEq α] : ∀ (a b : List α), isSubseq a b = true → ∀ c ∈ a, c ∈ b
+  | [], _, _, c, hc => by cases hc
+  | _ :: _, [], h, _, _ => by simp [isSubseq] at h
+  | x :: xs, y :: ys, h, c, hc => by
+    unfold isSubseq at h
+    split at h
+    · rename_i e
+      subst e
+      rcases List.mem_cons.mp hc with rfl | hm
+      · exact List.mem_cons_self
+      · exact List.mem_cons_of_mem _ (isSubseq_mem xs ys h c hm)
+    · exact List.mem_cons_of_mem _ (isSubseq_mem (x :: xs) ys h c hc)
+
+/-- content kept around the range, inserted text from BMP text only: the new document is BMP -/
+theorem bmp_of_kept (d d' : Node) (f t : Nat) (req : List Nat) (hb : bmpDoc d = true)
+    (hreq : ∀ c ∈ req, isHigh c = false)
+    (hk : PM.C11.Kept (ftoks d.kids) (ftoks d'.kids) f t req) : bmpDoc d' = true := by
+  obtain ⟨mid, e, hs⟩ := hk.text
+  unfold bmpDoc at hb ⊢
+  rw [all_noHigh_iff] at hb ⊢
+  intro c hc
+  rw [e] at hc
+  simp only [List.mem_append] at hc
+  rcases hc with (hc | hc) | hc
+  · exact hb c ((textUnits_sublist (List.take_sublist _ _)).subset hc)
+  · exact hreq c (isSubseq_mem _ _ hs c hc)
+  · exact hb c ((textUnits_sublist (List.drop_sublist _ _)).subset hc)
+
+/-- the text of a slice is BMP -/
+def sliceBmp (sl : Slice) : Bool := (sliceToks' sl).all Tok.noHigh
+
+/-- what is asked of the replace-around answer to a deletion: the fit guard of its inverse -/
+def AroundFitsBack (S : Schema) (s : Step) (d : Node) : Prop :=
+  match s with
+  | .replaceAround f t gf gt _ _ _ => gapFitsBack S d f t gf gt = true
+  | _ => True
+
+/-- `EditResidual` with what is derivable derived.  `replace(f, t, slice)`: `f ≤ t`, `nodeAttrsOK` of the current
+    document, and by class
+    * **deletion**: only `gapFitsBack` if the recorded step is a `ReplaceAroundStep` — the emitted slice has no text node
+      (normal form: `replaceStep_empty_norm`), the new document is BMP (`C11.delete_valid`: its text is the text
+      outside the range);
+    * **typing / inline leaves** with BMP text (`sliceBmp`): `RecordedReplaceOk` — the new document is BMP
+      (`C11.insertInline_valid_of_norm`: its text is the old text around the range and text of the slice);
+    * **loosely valid / cut from a valid document**: `unplacedWfRun`, the new document BMP, `RecordedReplaceOk`.
+    Every other operation: `MixedResidual`. -/
+def EditResidual' (S : Schema) (op : Op) (tr tr1 : Tr) : Prop :=
+  match op with
+  | .replace f t sl => f ≤ t ∧ S.nodeAttrsOK tr.doc = true ∧
+      ((sl = Slice.empty ∧ HistAll (fun s d _ => AroundFitsBack S s d) (appended tr tr1) tr1.doc) ∨
+       (sl.inlineLeaves S = true ∧ sl.closedValid S = true ∧ sliceBmp sl = true ∧
+          HistAll (fun s d _ => RecordedReplaceOk S s d) (appended tr tr1) tr1.doc) ∨
+       (((sl.looseValid S = true ∧ sl.wf = true) ∨ ∃ src a b, C01.Valid S src ∧ src.slice a b = .ok sl) ∧
+          unplacedWfRun S tr.doc f t sl = true ∧ bmpDoc tr1.doc = true ∧
+          HistAll (fun s d _ => RecordedReplaceOk S s d) (appended tr tr1) tr1.doc))
+  | op => MixedResidual S op tr tr1
+
+/-- `EditResidual'` implies `EditResidual` on a valid BMP document in normal form -/
+theorem editResidual_of' (S : Schema) (hdet : PM.C11.detB S = true) (hfill : S.fillersOKB = true)
+    (hwrap : S.wrapOKB = true) (hlab : S.labelsOKB = true) (hleaf : PM.FromDom.leafOkB S = true)
+    (hts : textStableC S = true) (hcl : S.closableB = true) (hst : PM.FromDom.textStableB S = true)
+    (op : Op) (tr tr1 : Tr) (hlen : tr.steps.length = tr.docs.length) (hI : FamilyInv S tr.doc)
+    (hb : bmpDoc tr.doc = true) (h : tr.runOp S op = some tr1) (hres : EditResidual' S op tr tr1) :
+    EditResidual S op tr tr1 := by
+  cases op with
+  | replace f t sl =>
+    obtain ⟨hft, hattrs, hk⟩ := hres
+    have hv : C01.Valid S tr.doc := hI.1
+    rcases hk with ⟨rfl, hrec⟩ | ⟨hsl, hslv, hsb, hrec⟩ | ⟨hk, hrun, hb1, hrec⟩
+    · refine ⟨hft, hattrs, Or.inl rfl, ?_⟩
+      rcases replaceOp_recorded S tr tr1 hlen f t _ h with ⟨e, ed⟩ | ⟨s, hr, e, ha⟩
+      · rw [e, ed]; exact ⟨hb, trivial⟩
+      · rw [e] at hrec ⊢
+        have hn := replaceStep_empty_norm S tr.doc f t hv s hr
+        have hkept := (PM.C11.delete_valid S hdet hfill hleaf tr.doc tr1.doc f t hv hattrs hft s hr ha).2.1
+        refine ⟨bmp_of_kept tr.doc tr1.doc f t [] hb (fun c hc => by cases hc) hkept, ?_, trivial⟩
+        have h1 : AroundFitsBack S s tr.doc := hrec.1
+        show RecordedReplaceOk S s tr.doc
+        cases s with
+        | replace F T sl0 b0 => exact hn _ rfl
+        | replaceAround F T G1 G2 sl0 ins b0 => exact ⟨hn _ rfl, h1⟩
+        | _ => trivial
+    · refine ⟨hft, hattrs, Or.inr (Or.inl ⟨hsl, hslv⟩), ?_, hrec⟩
+      rcases replaceOp_recorded S tr tr1 hlen f t _ h with ⟨e, ed⟩ | ⟨s, hr, e, ha⟩
+      · rw [ed]; exact hb
+      · rw [e] at hrec
+        have hok : RecordedReplaceOk S s tr.doc := hrec.1
+        have hkept := (PM.C11.insertInline_valid_of_norm S hdet hfill hwrap hlab hleaf hts hcl hst tr.doc tr1.doc f t sl
+          hsl hslv hv hI.2 hattrs hft s hr (by
+            intro F T G1 G2 sl' ins b e'
+            subst e'
+            exact hok.1) ha).2
+        refine bmp_of_kept tr.doc tr1.doc f t _ hb ?_ hkept
+        unfold sliceBmp at hsb
+        exact (all_noHigh_iff _).mp hsb
+    · refine ⟨hft, hattrs, ?_, hb1, hrec⟩
+      rcases hk with ⟨h1, h2⟩ | hcut
+      · exact Or.inr (Or.inr (Or.inl ⟨h1, h2, hrun⟩))
+      · exact Or.inr (Or.inr (Or.inr ⟨hcut, hrun⟩))
+  | _ => exact hres
+
+/-- on a BMP document, an editing run with `EditResidual'` meets `OpResidual` -/
+theorem editOps_residual' (S : Schema) (htr : compatTransB S = true) (htl : TextLoop S)
+    (hdet : PM.C11.detB S = true) (hfill : S.fillersOKB = true)
+    (hwrap : S.wrapOKB = true) (hlab : S.labelsOKB = true) (hleaf : PM.FromDom.leafOkB S = true)
+    (hts : textStableC S = true) (hcl : S.closableB = true) (hst : PM.FromDom.textStableB S = true) :
+    ∀ (ops : List Op) (tr : Tr), tr.steps.length = tr.docs.length → tr.maps.length = tr.steps.length →
+    FamilyInv S tr.doc → bmpDoc tr.doc = true →
+    (∀ op ∈ ops, editOp op = true) → OpsAll S (EditResidual' S) tr ops → OpsAll S (OpResidual S) tr ops
+  | [], _, _, _, _, _, _, _ => trivial
+  | op :: ops, tr, hlen, hml, hI, hb, hall, hres => by
+    simp only [OpsAll] at hres ⊢
+    cases h1 : tr.runOp S op with
+    | none => trivial
+    | some tr1 =>
+      simp only [h1] at hres ⊢
+      have hop := hall op (List.mem_cons_self ..)
+      have hres1 := editResidual_of' S hdet hfill hwrap hlab hleaf hts hcl hst op tr tr1 hlen hI hb h1 hres.1
+      obtain ⟨hr1, hb1⟩ := editOp_residual S htr htl hdet hfill hwrap hlab hleaf hts hcl hst op tr tr1 hop hlen hml
+        hI hb h1 hres1
+      refine ⟨hr1, ?_⟩
+      obtain ⟨h2, e1, l1, n1, r1⟩ := (Tr.runOp_grows op h1).hist hlen
+      have g1 := op_family S op tr tr1 hlen hI h1 hr1
+      rw [appended_eq e1] at g1
+      have hI1 : FamilyInv S tr1.doc :=
+        (chain_of_invariant S (FamilyInv S) (FamilyGuard S) (family_step S htr htl) h2 tr1.doc
+          (by rw [n1]; exact hI) r1 g1).2
+      exact editOps_residual' S htr htl hdet hfill hwrap hlab hleaf hts hcl hst ops tr1 l1
+        ((Tr.runOp_grows op h1).maps_len hml) hI1 hb1
+        (fun o ho => hall o (List.mem_cons_of_mem _ ho)) hres.2
+
+/-- **`editHistory_undo_bmp` with the derivable hypotheses derived** (`EditResidual'`): a deletion asks for nothing
+    but `f ≤ t`, `nodeAttrsOK` of the current document and — only when the Fitter answered a `ReplaceAroundStep` —
+    `gapFitsBack`; typing / inserting inline leaves asks for BMP text in the slice instead of a BMP result. -/
+theorem editHistory_undo_bmp' (S : Schema) (htr : compatTransB S = true) (htl : TextLoop S)
+    (hdet : PM.C11.detB S = true) (hfill : S.fillersOKB = true)
+    (hwrap : S.wrapOKB = true) (hlab : S.labelsOKB = true) (hleaf : PM.FromDom.leafOkB S = true)
+    (hts : textStableC S = true) (hcl : S.closableB = true) (hst : PM.FromDom.textStableB S = true)
+    (doc : Node) (ops : List Op) (tr' : Tr) (hd : S.checkNode doc = true) (hn : fnorm doc.kids = true)
+    (hb : bmpDoc doc = true) (hall : ∀ op ∈ ops, editOp op = true)
+    (h : (Tr.init doc).runOps S ops = some tr')
+    (hres : OpsAll S (EditResidual' S) (Tr.init doc) ops) :
+    tr'.undo S = .ok doc ∧ FamilyInv S tr'.doc :=
+  opHistory_undo S htr htl doc ops tr' hd hn h
+    (editOps_residual' S htr htl hdet hfill hwrap hlab hleaf hts hcl hst ops (Tr.init doc) rfl rfl ⟨hd, hn⟩ hb
       hall hres)
 
 end PM.C04
